@@ -470,6 +470,9 @@ def _judge(plan, jp, job, K, mon, result, fstate, end, want_log, ref, ginfo):
         if verdict == "hang" or result.get("spin"):
             if lossy and _lost_for_good(K, mon):
                 viol.append(("C06", "lost_message_never_retried_nor_reported", _lost_for_good(K, mon)[:3], sig_base))
+                if fair_loss:
+                    # every message lost fewer frames than the retry budget: the run of a feasible job still has to end
+                    viol.append(("C03", "hang_under_fair_loss", dict(end=end, started=len(mon.started), tasks=ntasks), sig_base))
             else:
                 viol.append(("C03", "spin" if result.get("spin") else "hang", dict(end=end, started=len(mon.started), tasks=ntasks,
                              crashes=[c[:2] for c in helper_crashes][:3]), sig_base))
